@@ -215,7 +215,7 @@ impl CondvarBlocker {
     pub fn notify(&self) {
         let mut condition = self.mutex.lock().expect("lock failed");
         #[cfg(open_coroutine_verif)]
-        crate::common::verif::pause("blocker_notify_locked");
+        verif::pause("blocker_notify_locked");
         // true means the condition is ready, the other thread can continue.
         *condition = true;
         self.condvar.notify_one();
